@@ -129,10 +129,17 @@ def make_component(c, layout, variant):
     plain = layout["plain"][c]
     has = layout["has"][c]
     inherited = layout.get("inherit", {}).get(c, [])
+    redeclared = layout.get("redeclare", {}).get(c, [])   # marker re-declared in the subclass with another default
+    shadowed = layout.get("shadow", {}).get(c, [])        # base-class marker shadowed by a plain class attribute
     base_ns = {}
     ns = {"__annotations__": {"shared": Shared}}
     for a, d in resets.items():
         (base_ns if a in inherited else ns)[a] = will_reset_to(d)
+        if a in redeclared and a not in inherited:
+            base_ns[a] = will_reset_to(d + 100)
+    for a in shadowed:
+        base_ns[a] = will_reset_to(77)
+        ns[a] = plain[a]
 
     def __init__(self):
         for a, v in plain.items():
@@ -152,7 +159,7 @@ def make_component(c, layout, variant):
         if g["o"] == c:
             add_getter(ns, c, g["key"], variant)
     bases = (object,)
-    if inherited:
+    if base_ns:
         bases = (type("Base_" + c, (object,), base_ns),)
     return type("Comp_" + c, bases, ns)
 
@@ -355,23 +362,26 @@ def gen_layout(rng, uid):
     n = rng.choice([1, 2, 2, 3])
     comps = ["c%d_%d" % (i, uid) for i in range(n)]
     has, resets, plain, inherit, fbs = {}, {}, {}, {}, []
+    redeclare, shadow = {}, {}
     for c in comps:
         has[c] = {k: rng.random() < 0.7 for k in ("setup", "on_enable", "on_disable")}
         nr = rng.choice([0, 1, 1, 2])
         resets[c] = {"r%d" % j: rng.choice([0, 0, 1, 5]) for j in range(nr)}
         inherit[c] = [a for a in resets[c] if rng.random() < 0.3]
         plain[c] = {"p": rng.randint(10, 19)}
+        redeclare[c] = [a for a in resets[c] if a not in inherit[c] and rng.random() < 0.3]
+        shadow[c] = ["p"] if rng.random() < 0.25 else []
         if rng.random() < 0.5:
-            fbs.append({"o": c, "key": "k_%s" % c})
+            fbs.append({"o": c, "key": rng.choice(["k_%s", "widget_%s", "budget_left_%s"]) % c})
     if rng.random() < 0.4:
-        fbs.append({"o": "robot", "key": "rk_%d" % uid})
+        fbs.append({"o": "robot", "key": rng.choice(["rk_%d", "target_%d"]) % uid})
     nm = rng.choice([0, 1, 1, 2])
     modes = ["m%d_%d" % (i, uid) for i in range(nm)]
     defmode = rng.choice(modes + ["none"]) if modes else "none"
     return {"comps": comps, "has": has, "resets": resets, "plain": plain, "feedbacks": fbs,
             "teleAuto": rng.random() < 0.5, "modes": modes, "defmode": defmode,
             "period": rng.choice([20000, 20000, 5000, 15625]),
-            "inherit": inherit, "robot_split": rng.randint(0, n)}
+            "inherit": inherit, "redeclare": redeclare, "shadow": shadow, "robot_split": rng.randint(0, n)}
 
 
 def apply_env(e):
